@@ -1537,6 +1537,10 @@ func (t *tScreen) parseSgrMouse(buf *bytes.Buffer, evs *[]Event) (bool, bool) {
 			}
 			*evs = append(*evs, t.buildMouseEvent(x, y, btn))
 			return true, true
+
+		default:
+			// no other byte occurs in a mouse report
+			return false, false
 		}
 	}
 
@@ -1774,6 +1778,10 @@ func (t *tScreen) parseRune(buf *bytes.Buffer, evs *[]Event) (bool, bool) {
 					t.escaped = false
 				}
 				*evs = append(*evs, NewEventKey(KeyRune, r, mod))
+			} else if nOut > utf8.RuneLen(r) {
+				// an invalid byte, and the decoder went on to what
+				// follows it: only the invalid byte is dropped
+				nIn = 1
 			}
 			for nIn > 0 {
 				_, _ = buf.ReadByte()
